@@ -335,6 +335,15 @@ impl Report {
                 vacuous.push(k.to_string());
             }
         }
+        // remove replay files of earlier runs of this check
+        if let Ok(rd) = std::fs::read_dir(format!("{VERIF_DIR}/replays")) {
+            let prefix = format!("{}-{}-", self.property, self.tier.name());
+            for e in rd.flatten() {
+                if e.file_name().to_string_lossy().starts_with(&prefix) {
+                    let _ = std::fs::remove_file(e.path());
+                }
+            }
+        }
         let mut printed = 0;
         let mut replay_paths = vec![];
         for (i, f) in st.violations.iter().enumerate() {
